@@ -24,6 +24,22 @@
 (*                              itself (early bound, or placed before the  *)
 (*                              pilot was re-added) and drops the rest of  *)
 (*                              the batch and the reschedule               *)
+(*   DevAddForgetsState    (regression class) add_pilots creates the pilot  *)
+(*                              record afresh: the state learnt from        *)
+(*                              notifications is dropped and the (possibly  *)
+(*                              stale) state of the pilot document wins     *)
+(*   DevContradictionRaises     a pilot document / notification whose final *)
+(*                              state contradicts a recorded DONE raises in *)
+(*                              _pilot_state_progress; inside add_pilots    *)
+(*                              that leaves the pilot with role added but   *)
+(*                              outside the policy's pid list, its early    *)
+(*                              bound tasks unforwarded                     *)
+(*                                                                         *)
+(* add_pilots documents carry ANY state, older or newer than what the       *)
+(* notifications said (control and state messages travel on different       *)
+(* channels).  The ghosts grole / gst hold the role as commanded and the    *)
+(* furthest state ever notified or added; eligibility is judged on them,    *)
+(* never on the code's record.                                              *)
 (***************************************************************************)
 EXTENDS TmgrOps, TLC
 
@@ -39,7 +55,9 @@ CONSTANTS Policy,          \* "RR" | "BF"
           MaxBatch,        \* tasks per Submit / TaskStates
           MaxPBatch,       \* pilots per add / remove
           DevEarlyNotCleared,
-          DevBFRaiseSkipsBatch
+          DevBFRaiseSkipsBatch,
+          DevAddForgetsState,
+          DevContradictionRaises
 
 VARIABLES cs,              \* the code's bookkeeping (see TmgrOps)
           tst,             \* "new" | "sub" (at the scheduler) | "fwd" | "fin" (final notified)
@@ -47,14 +65,17 @@ VARIABLES cs,              \* the code's bookkeeping (see TmgrOps)
           fwdCount,        \* number of forwards
           addedAtBind,     \* late bound: was the pilot added when bound? "na" | "yes" | "no"
           gset,            \* backfilling ghost usage (see BFWalk)
+          grole,           \* role as commanded by the task manager
+          gst,             \* furthest pilot state ever notified or added
           rrBad, bfBad     \* some scheduling call broke RRBalanced / BFEligible
 
-vars == <<cs, tst, bound, fwdCount, addedAtBind, gset, rrBad, bfBad>>
+vars == <<cs, tst, bound, fwdCount, addedAtBind, gset, grole, gst, rrBad, bfBad>>
 
 Tasks  == SeqSet(TaskSeq)
 Pilots == SeqSet(PilotSeq)
 K == [policy |-> Policy, named |-> Named, cores |-> Cores, hwm |-> Hwm, lo |-> BFLo, hi |-> BFHi,
-      devEarly |-> DevEarlyNotCleared, devRaise |-> DevBFRaiseSkipsBatch]
+      devEarly |-> DevEarlyNotCleared, devRaise |-> DevBFRaiseSkipsBatch,
+      devAddFresh |-> DevAddForgetsState, devCtrRaise |-> DevContradictionRaises]
 
 TSeqOf(B) == SelectSeq(TaskSeq,  LAMBDA t : t \in B)
 PSeqOf(P) == SelectSeq(PilotSeq, LAMBDA p : p \in P)
@@ -62,7 +83,7 @@ PSeqOf(P) == SelectSeq(PilotSeq, LAMBDA p : p \in P)
 Init ==
   /\ cs = [role  |-> [p \in Pilots |-> "none"],
            pst   |-> [p \in Pilots |-> "none"],
-           info  |-> [p \in Pilots |-> FreshInfo],
+           info  |-> [p \in Pilots |-> NoInfo],
            early |-> [p \in Pilots |-> <<>>],
            wait  |-> <<>>, pids |-> <<>>, idx |-> 0]
   /\ tst = [t \in Tasks |-> "new"]
@@ -70,21 +91,23 @@ Init ==
   /\ fwdCount = [t \in Tasks |-> 0]
   /\ addedAtBind = [t \in Tasks |-> "na"]
   /\ gset = [p \in Pilots |-> {}]
+  /\ grole = [p \in Pilots |-> "none"] /\ gst = [p \in Pilots |-> "none"]
   /\ rrBad = FALSE /\ bfBad = FALSE
 
 \* ghost update for the result r of one callback; tst1 / gpre: task states and ghost
 \* usage after the callback's own effect, before its forwards are accounted
-Apply(r, tst1, gpre) ==
+Apply(r, tst1, gpre, role2, st2) ==
   LET fw(t) == CountFwd(r.fwd, t) > 0
-      w     == IF Policy = "BF" THEN BFWalk(K, r.fwd, 1, gpre, r.cs.role, r.cs.pst)
+      w     == IF Policy = "BF" THEN BFWalk(K, r.fwd, 1, gpre, role2, st2)
                ELSE [gset |-> gpre, bad |-> FALSE]
   IN
   /\ cs' = r.cs
+  /\ grole' = role2 /\ gst' = st2
   /\ fwdCount' = [t \in Tasks |-> fwdCount[t] + CountFwd(r.fwd, t)]
   /\ bound' = [t \in Tasks |-> IF fw(t) THEN LastPilot(r.fwd, t) ELSE bound[t]]
   /\ addedAtBind' = [t \in Tasks |->
         IF fw(t) /\ Named[t] = "none"
-        THEN (IF r.cs.role[LastPilot(r.fwd, t)] = "added" /\ addedAtBind[t] # "no" THEN "yes" ELSE "no")
+        THEN (IF role2[LastPilot(r.fwd, t)] = "added" /\ addedAtBind[t] # "no" THEN "yes" ELSE "no")
         ELSE addedAtBind[t]]
   /\ tst' = [t \in Tasks |-> IF fw(t) /\ tst1[t] = "sub" THEN "fwd" ELSE tst1[t]]
   /\ gset' = w.gset
@@ -96,7 +119,7 @@ Submit(B) ==
   /\ B # {} /\ Cardinality(B) <= MaxBatch
   /\ \A t \in B : tst[t] = "new"
   /\ Apply(StepSubmit(K, cs, TSeqOf(B)),
-           [t \in Tasks |-> IF t \in B THEN "sub" ELSE tst[t]], gset)
+           [t \in Tasks |-> IF t \in B THEN "sub" ELSE tst[t]], gset, grole, gst)
 
 \* the task manager never adds a pilot twice, a removed pilot may be added again
 AddPilots(f) ==
@@ -105,17 +128,19 @@ AddPilots(f) ==
       add == [i \in 1 .. Len(Ps) |-> <<Ps[i], f[Ps[i]]>>]
   IN
   /\ P # {} /\ Cardinality(P) <= MaxPBatch
-  /\ \A p \in P : cs.role[p] # "added"
-  /\ ~AddRaises(cs, add)
-  /\ Apply(StepAdd(K, cs, add), tst, [p \in Pilots |-> IF p \in P THEN {} ELSE gset[p]])
+  /\ \A p \in P : grole[p] # "added"
+  /\ Apply(StepAdd(K, cs, add), tst, [p \in Pilots |-> IF p \in P THEN {} ELSE gset[p]],
+           [p \in Pilots |-> IF p \in P THEN "added" ELSE grole[p]],
+           [p \in Pilots |-> IF p \in P THEN Furthest(gst[p], f[p]) ELSE gst[p]])
 
 RemovePilots(P) ==
   /\ P # {} /\ Cardinality(P) <= MaxPBatch
-  /\ \A p \in P : cs.role[p] = "added"
-  /\ Apply(StepRemove(K, cs, P), tst, gset)
+  /\ \A p \in P : grole[p] = "added"
+  /\ Apply(StepRemove(K, cs, PSeqOf(P)), tst, gset,
+           [p \in Pilots |-> IF p \in P THEN "removed" ELSE grole[p]], gst)
 
 PilotState(p, s) ==
-  /\ Apply(StepPState(K, cs, p, s), tst, gset)
+  /\ Apply(StepPState(K, cs, p, s), tst, gset, grole, [gst EXCEPT ![p] = Furthest(@, s)])
 
 \* final notifications for tasks which were forwarded (published once per task)
 TaskStates(B) ==
@@ -123,7 +148,7 @@ TaskStates(B) ==
   /\ \A t \in B : tst[t] = "fwd"
   /\ Apply(StepTStates(K, cs, TSeqOf(B), bound),
            [t \in Tasks |-> IF t \in B THEN "fin" ELSE tst[t]],
-           [p \in Pilots |-> gset[p] \ B])
+           [p \in Pilots |-> gset[p] \ B], grole, gst)
 
 Next ==
   \/ \E B \in SUBSET Tasks : Submit(B)
@@ -149,8 +174,14 @@ TypeOK ==
   /\ cs.idx \in 0 .. Len(PilotSeq)
   /\ tst \in [Tasks -> {"new", "sub", "fwd", "fin"}]
   /\ bound \in [Tasks -> Pilots \cup {"none"}]
-  \* the policy's pid list is the list of added pilots, without duplicates
-  /\ SeqSet(cs.pids) = {p \in Pilots : cs.role[p] = "added"}
+  /\ grole \in [Pilots -> {"none", "added", "removed"}]
+  /\ gst \in [Pilots -> PStateNames]
+
+\* intended design: the records hold the commanded role and the furthest state, the
+\* policy's pid list is the list of added pilots, without duplicates
+InvRecords ==
+  /\ cs.role = grole /\ cs.pst = gst
+  /\ SeqSet(cs.pids) = {p \in Pilots : grole[p] = "added"}
   /\ \A p \in Pilots : Count(cs.pids, p) <= 1
 
 \* C12 ForwardOnce: never forwarded twice ...
@@ -159,10 +190,10 @@ InvForwardOnce == \A t \in Tasks : fwdCount[t] <= 1 /\ (tst[t] \in {"fwd", "fin"
 \* ... and forwarded at quiescence (every state: callbacks are atomic) whenever an
 \* eligible pilot exists: a named task waits only for a pilot never added so far,
 \* any other task only while no pilot is eligible
-Eligible == IF Policy = "RR" THEN EligibleRR(cs.role) ELSE EligibleBF(K, cs.role, cs.pst, gset)
+Eligible == IF Policy = "RR" THEN EligibleRR(grole) ELSE EligibleBF(K, grole, gst, gset)
 InvForwardedIfEligible ==
   \A t \in Tasks : tst[t] = "sub" =>
-     IF Named[t] # "none" THEN cs.role[Named[t]] = "none" ELSE ~Eligible
+     IF Named[t] # "none" THEN grole[Named[t]] = "none" ELSE ~Eligible
 
 \* C12 NamedGoesToNamed
 InvNamed == \A t \in Tasks : (Named[t] # "none" /\ bound[t] # "none") => bound[t] = Named[t]
